@@ -683,6 +683,15 @@ func (s *Session) advLockStmt(key string, xact bool) error {
 	})
 }
 
+// advTryLockStmt: pg_try_advisory_[xact_]lock - takes the lock if it is free (or already ours) and says so;
+// returns false at once when another session holds it.
+func (s *Session) advTryLockStmt(key string, xact bool) (bool, error) {
+	if l := s.db.advLocks[key]; l != nil && l.owner != s {
+		return false, s.stmt("", func() error { return nil })
+	}
+	return true, s.advLockStmt(key, xact)
+}
+
 func (s *Session) advUnlockStmt(key string) (bool, error) {
 	ok := false
 	err := s.stmt("", func() error {
